@@ -1806,11 +1806,11 @@ MANIFEST = {
     "design_ref": "DESIGN.md 4/C03",
 }
 FINDINGS = [
-    {"status": "fixed", "key": "history:stale-id-Term(t)", "commit": "fixes/C03-1.patch",
+    {"status": "fixed", "key": "history:stale-id-Term(t)", "commit": "f0b4a85",
      "what": "Term(t) copied t._id: Term(Var('a', bool)) == Var('b', bool) was True once the temporary was freed and its address reused"},
-    {"status": "fixed", "key": "history:stale-id-deepcopy", "commit": "fixes/C03-2.patch",
+    {"status": "fixed", "key": "history:stale-id-deepcopy", "commit": "167e4e2",
      "what": "copy.deepcopy / pickle rebuilt terms with the _id of the original: deepcopy(Var('a', bool)) == Var('b', bool) could be True"},
-    {"status": "fixed", "key": "subst_type_inplace:shared-subobject-twice", "commit": "fixes/C03-3.patch",
+    {"status": "fixed", "key": "subst_type_inplace:shared-subobject-twice", "commit": "995b99e",
      "what": "subst_type_inplace applied the instantiation twice to a sub-object occurring twice in the term (f x x with shared x, {a: ?'a list}) giving an ill-typed term"},
     {"status": "known", "key": ALIAS_KEY,
      "what": "subst_type_inplace rewrites the objects of its target in place; another live term that shares one of these objects changes with it but keeps "
